@@ -10,7 +10,7 @@ from pdb2sql import StructureSimilarity, pdb2sql
 ID = 'C08'
 LEVEL = 'proof'
 CLUSTER = 'G'
-GEN_UNITS = ['record_loop', '_format_pdb_linelength', '_get_chainID', '_get_element']
+GEN_UNITS = ['Consts', 'record_loop', '_format_pdb_linelength', '_get_chainID', '_get_element']
 MODELS = ['Model.Fnat.fnatFast', 'Model.Fnat.fnatSql', 'Model.Fnat.clashes', 'Model.Fnat.fixChainID']
 RULE = ('reference = synthetic two-chain complex from complexgen (3-12 residues per chain, backbone + 0-4 side-chain atoms, optional hydrogens '
         'named H/HA/1HB/HD21, plain/negative/gappy/offset numbering, inter-strand gap 3.5-11 A, chain identifiers A/B, X/Y, B/A, L/H, 1/2, a/A); '
@@ -32,7 +32,8 @@ ASSUMPTIONS = ['single-model files (no ENDMDL)',
                'a hydrogen is an atom whose name starts with H (library convention, shared with C05): 1HB-style names count as heavy atoms in '
                'the Spec as in both routes',
                'the Spec is evaluated on the table as the library parsed it (C01); the Model parses the text itself']
-TRUSTED = ['the closed forms of Model.contactPairs / Model.contactResiduePairs used by the C08 theorems are those of cluster C (Proofs/Contacts*.lean)']
+TRUSTED = ['the C08 theorems import cluster C\'s proved closed forms of Model.contactPairs / Model.contactResiduePairs (Proofs/Contacts*.lean, re-checked in the same build; nothing assumed)',
+           'RawAgrees (the raw-column reader of the fast route sees the rows of the parsed decoy table) is a hypothesis of fnat_fast_eq_def, evaluated by the Model driver on every case; it is not derived from the parser model']
 
 CUTOFFS = [3.0, 3.5, 4.0, 5.0, 5.0, 6.0, 8.0]
 CHAIN_PAIRS = [('A', 'B'), ('A', 'B'), ('A', 'B'), ('X', 'Y'), ('B', 'A'), ('L', 'H'), ('1', '2'), ('a', 'A')]
@@ -373,6 +374,7 @@ def search_cases(ctx):
 # ----------------------------------------------------------------------------------------------------------------
 
 _COUNTER = [0]
+_TABLES = {}       # case id -> tables as the library parsed them (kept out of the reported outputs: they are large)
 
 
 def table_of(db):
@@ -424,7 +426,9 @@ def impl(ctx, c):
                 cut = float(unrat(c['cutoff']))
                 cut_fast = int(cut) if cut == int(cut) and c['family'].startswith('lattice') else cut   # the default of the fast route is an int
                 fast, sql = val(lambda: S.compute_fnat_fast(cutoff=cut_fast)), val(lambda: S.compute_fnat_pdb2sql(cutoff=cut))
-            out = {'fast': fast, 'sql': sql, 'ref_atoms': parsed_table(c['ref']), 'dec_atoms': parsed_table(c['dec'])}
+            _COUNTER[0] += 1
+            out = {'fast': fast, 'sql': sql, 'tables': _COUNTER[0]}
+            _TABLES[out['tables']] = {'ref_atoms': parsed_table(c['ref']), 'dec_atoms': parsed_table(c['dec'])}
             for p in (ref, dec):
                 if isinstance(p, str) and os.path.exists(p):
                     os.remove(p)
@@ -438,19 +442,21 @@ def impl(ctx, c):
         except Exception as e:
             v = exc_tag(e)
         os.remove(p)
-        return {'value': v, 'atoms': parsed_table(c['lines'])}
+        _COUNTER[0] += 1
+        _TABLES[_COUNTER[0]] = {'atoms': parsed_table(c['lines'])}
+        return {'value': v, 'tables': _COUNTER[0]}
     finally:
         os.chdir(cwd)
 
 
 def driver_line(c, out):
     nl = '\n' if c.get('via') == 'file' else ''
+    tb = _TABLES.get(out.get('tables'), {}) if isinstance(out, dict) else {}
     if c['op'] == 'fnat':
-        ra = out.get('ref_atoms') if isinstance(out, dict) else None
-        da = out.get('dec_atoms') if isinstance(out, dict) else None
+        ra, da = tb.get('ref_atoms'), tb.get('dec_atoms')
         return {'op': 'fnat', 'ref_lines': [l + nl for l in c['ref']], 'dec_lines': [l + nl for l in c['dec']], 'cutoff': c['cutoff'],
                 'ref_atoms': ra if isinstance(ra, list) else [], 'dec_atoms': da if isinstance(da, list) else []}
-    at = out.get('atoms') if isinstance(out, dict) else None
+    at = tb.get('atoms')
     return {'op': 'clashes', 'lines': [l + '\n' for l in c['lines']], 'chain1': c['chain1'], 'chain2': c['chain2'],
             'atoms': at if isinstance(at, list) else []}
 
@@ -480,7 +486,7 @@ def agree_model(c, out, model):
             v = same_value(out[route], model[route])
             if v is not True:
                 return v if v == 'discard' else f'{route}: implementation/model {v}'
-        if isinstance(out['dec_atoms'], list) and model['raw_agrees'] != c['raw_ok']:
+        if isinstance(_TABLES.get(out['tables'], {}).get('dec_atoms'), list) and model['raw_agrees'] != c['raw_ok']:
             return f'raw-column reader agrees with the parser: model says {model["raw_agrees"]}, generator expected {c["raw_ok"]}'
         return True
     return True if out['value'] == model else f'implementation {out["value"]!r} model {model!r}'
@@ -497,7 +503,8 @@ def in_domain(c, spec, route):
 
 def agree_spec(c, out, spec):
     if c['op'] == 'fnat':
-        if not isinstance(out['ref_atoms'], list) or not isinstance(out['dec_atoms'], list):
+        tb = _TABLES.get(out['tables'], {})
+        if not isinstance(tb.get('ref_atoms'), list) or not isinstance(tb.get('dec_atoms'), list):
             return True
         want = 'ERR:ZeroDivisionError' if spec['value'] == 'UNDEFINED' else spec['value']
         for route in ('fast', 'sql'):
@@ -513,7 +520,7 @@ def agree_spec(c, out, spec):
                 if out[route] != '1/1':
                     return f'{route}: decoy = reference but Fnat = {out[route]}'
         return True
-    if not isinstance(out['atoms'], list) or not spec['two_chains'] or isinstance(out['value'], str):
+    if not isinstance(_TABLES.get(out['tables'], {}).get('atoms'), list) or not spec['two_chains'] or isinstance(out['value'], str):
         return True
     if c['family'] in ('three-chains', 'unknown-chain', 'same-chain'):
         return True
